@@ -42,6 +42,20 @@ theorem paren_table :
     Gen.TranspileOps.parenLeft = "(1+2)*3" ∧ Gen.TranspileOps.parenRight = "3*(1+2)" ∧
     Gen.TranspileOps.parenUnary = "-(1+2)" ∧ Gen.TranspileOps.parenCmpRightList = "3==1+2" := by decide
 
+/-- the parenthesisation RULE the translation model assumes, spelled out for every ordered pair (outer, inner) of the 10 binary and
+    6 comparison operators: a nested operator is parenthesised on either side of a binary operator and on the left of a comparison;
+    the right comparator is emitted bare (`safeRhs` decides when that is harmless) -/
+def binOps : List BinOp := [.add, .sub, .mul, .fdiv, .fmod, .band, .bor, .bxor, .shl, .shr]
+def cmpOps : List CmpOp := [.eq, .ne, .lt, .le, .gt, .ge]
+def allSyms : List (String × Bool) :=
+  binOps.map (fun o => (Gen.TranspileOps.binSym o, false)) ++ cmpOps.map (fun o => (Gen.TranspileOps.cmpSym o, true))
+def expectedPairs : List String :=
+  allSyms.flatMap fun (o, isCmp) => allSyms.flatMap fun (i, _) =>
+    ["(3" ++ i ++ "2)" ++ o ++ "1", if isCmp then "3" ++ o ++ "2" ++ i ++ "1" else "3" ++ o ++ "(2" ++ i ++ "1)"]
+
+set_option maxRecDepth 100000 in
+theorem paren_pairs_table : Gen.TranspileOps.parenPairs = expectedPairs := by decide +kernel
+
 /-! ## Python side: the domain-restricted semantics is the real one -/
 
 /-- inside the domain, `evalD` computes exactly what CPython computes -/
